@@ -117,6 +117,119 @@ theorem C15_source_printTtyOut_src (M : Mods) (modcount : Nat) (isatty : Bool) :
 
 end SourceTieT2
 
+/-! ### Capstones: the property composed with the source tie. The TRANSLATED SOURCE ITSELF (`QR.Gen.Code`, regenerated
+    from /repo's current Python AST on every run) satisfies the Spec statement, for all inputs; no `QR.Model` function
+    occurs in a conclusion (`Model.Err.osError` is only the name of the exception). Covered:
+    `qrcode/main.py:QRCode.print_ascii` - the tty check (`print_ascii_refuse`), `if tty: invert = True`
+    (`print_ascii_invert`), the code table and its reversal (`print_ascii_codes`), both loops and the escape sequences
+    (`print_ascii_text`), and the nested `get_module` through its translated tests `get_module_phantom` /
+    `get_module_outside` and return values (its last branch `cast(int, self.modules[x][y])` is not translated as an
+    expression - `Gen.Code.get_module_inside` records its text - and is written here as the list lookup);
+    `qrcode/main.py:QRCode.print_tty` - the tty check (`print_tty_refuse`) and the text (`print_tty_text`, with
+    `self.modules[r][c]` as the list lookup). NOT covered: the implicit `self.make()` of both (a callee, treated by
+    `C16_implicit_compile`), the stream default `sys.stdout` and `out.flush()` (literals only); `modcount` is
+    `self.modules_count`, here the side `n` of the matrix. -/
+section Capstone
+open QR.Model QR.Gen.Code QR.SourceTieB
+
+/-- **capstone, `qrcode/main.py:QRCode.print_ascii`** (text, after the tty check): for every `n × n` matrix, every border and all
+    four (tty, invert) combinations, the text the translated code builds, read back by the independent reader
+    `Spec.readHalfBlocks` (ink = light iff `invert || tty`), is exactly `Spec.frame M n border`; `take` drops the phantom
+    lower half-row of an odd height. From `C15_source_printAscii_src`, `C15_source_get_module` and `C15_ascii`. -/
+theorem C15_source_capstone_print_ascii (M : List (List Bool)) (n border : Nat)
+    (hlen : M.length = n) (hrow : ∀ row ∈ M, row.length = n) (tty invert : Bool) :
+    (Spec.readHalfBlocks (invert || tty)
+      (print_ascii_text
+        (fun x y => if get_module_phantom n border (print_ascii_invert tty invert) x y then get_module_phantom_value
+          else if get_module_outside n x y then get_module_outside_value
+          else if (M.getD x.toNat []).getD y.toNat false then 1 else 0)
+        (print_ascii_codes (print_ascii_invert tty invert)) n border tty (print_ascii_invert tty invert))).map (·.take (n + 2 * border))
+      = some (Spec.frame M n border) := by
+  have hg : (fun x y => if get_module_phantom n border (print_ascii_invert tty invert) x y then get_module_phantom_value
+          else if get_module_outside n x y then get_module_outside_value
+          else if (M.getD x.toNat []).getD y.toNat false then 1 else 0) = getModule M n border (print_ascii_invert tty invert) := by
+    funext x y
+    exact (QR.SourceTie.getModule_eq M n border (print_ascii_invert tty invert) x y).symm
+  have h := C15_ascii M n border hlen hrow tty invert
+  rw [C15_source_printAscii_src M n border tty invert] at h
+  rw [hg]
+  exact h
+
+/-- **capstone, `qrcode/main.py:QRCode.print_tty`** (text, after the tty check): for every `n × n` matrix the colour-escape text
+    the translated code builds, read back by `Spec.readTty`, is exactly the symbol framed by one light module.
+    From `C15_source_printTty_src` and `C15_tty`. -/
+theorem C15_source_capstone_print_tty (M : List (List Bool)) (n : Nat)
+    (hlen : M.length = n) (hrow : ∀ row ∈ M, row.length = n) :
+    Spec.readTty (print_tty_text (fun r c => (M.getD r []).getD c false) n) = some (Spec.frame M n 1) := by
+  rw [← C15_source_printTty_src M n]
+  exact C15_tty M n hlen hrow
+
+/-- **capstone, `qrcode/main.py:QRCode.print_ascii`, end to end with its tty check**: the translated `if tty and not out.isatty():
+    raise OSError` followed by the translated text - whenever that yields a text (no OSError), the text reads back to
+    `Spec.frame M n border`; and OSError is raised exactly for `tty` on a non-tty stream.
+    From `C15_source_capstone_print_ascii` (i.e. `C15_source_printAscii_src`, `C15_source_get_module`, `C15_ascii`);
+    the shape of the check is that of `C15_source_printAsciiOut_src`. -/
+theorem C15_source_capstone_print_ascii_out (M : List (List Bool)) (n border : Nat)
+    (hlen : M.length = n) (hrow : ∀ row ∈ M, row.length = n) (tty invert isatty : Bool) (text : List Nat)
+    (h : (if print_ascii_refuse tty isatty then (.error .osError : Except Err (List Nat)) else .ok
+      (print_ascii_text
+        (fun x y => if get_module_phantom n border (print_ascii_invert tty invert) x y then get_module_phantom_value
+          else if get_module_outside n x y then get_module_outside_value
+          else if (M.getD x.toNat []).getD y.toNat false then 1 else 0)
+        (print_ascii_codes (print_ascii_invert tty invert)) n border tty (print_ascii_invert tty invert))) = .ok text) :
+    (Spec.readHalfBlocks (invert || tty) text).map (·.take (n + 2 * border)) = some (Spec.frame M n border) ∧
+      (print_ascii_refuse tty isatty = true ↔ (tty = true ∧ isatty = false)) := by
+  refine ⟨?_, by cases tty <;> cases isatty <;> decide⟩
+  split at h
+  · cases h
+  · cases h; exact C15_source_capstone_print_ascii M n border hlen hrow tty invert
+
+/-- **capstone, `qrcode/main.py:QRCode.print_tty`, end to end with its tty check**: the translated `if not out.isatty(): raise
+    OSError` followed by the translated text - whenever that yields a text, it reads back to the symbol framed by one
+    light module; and OSError is raised exactly on a non-tty stream.
+    From `C15_source_capstone_print_tty` (i.e. `C15_source_printTty_src`, `C15_tty`); the shape of the check is that of
+    `C15_source_printTtyOut_src`. -/
+theorem C15_source_capstone_print_tty_out (M : List (List Bool)) (n : Nat)
+    (hlen : M.length = n) (hrow : ∀ row ∈ M, row.length = n) (isatty : Bool) (text : List Nat)
+    (h : (if print_tty_refuse isatty then (.error .osError : Except Err (List Nat)) else .ok
+      (print_tty_text (fun r c => (M.getD r []).getD c false) n)) = .ok text) :
+    Spec.readTty text = some (Spec.frame M n 1) ∧ (print_tty_refuse isatty = true ↔ isatty = false) := by
+  refine ⟨?_, by cases isatty <;> decide⟩
+  split at h
+  · cases h
+  · cases h; exact C15_source_capstone_print_tty M n hlen hrow
+
+/-- the capstones at a concrete 2 x 2 symbol: the translated `print_tty` text, and the translated `print_ascii` text with
+    border 1 on a tty, read back to the framed symbol spelled out -/
+example : Spec.readTty (print_tty_text (fun r c => (([[true, false], [true, true]] : List (List Bool)).getD r []).getD c false) 2) =
+    some [[false, false, false, false], [false, true, false, false], [false, true, true, false],
+      [false, false, false, false]] :=
+  (C15_source_capstone_print_tty [[true, false], [true, true]] 2 rfl (by decide)).trans (by decide)
+
+example : (Spec.readHalfBlocks true
+      (print_ascii_text
+        (fun x y => if get_module_phantom (2:Nat) (1:Nat) (print_ascii_invert true false) x y then get_module_phantom_value
+          else if get_module_outside (2:Nat) x y then get_module_outside_value
+          else if (([[true, false], [true, true]] : List (List Bool)).getD x.toNat []).getD y.toNat false then 1 else 0)
+        (print_ascii_codes (print_ascii_invert true false)) (2:Nat) (1:Nat) true (print_ascii_invert true false))).map (·.take (2 + 2 * 1))
+      = some [[false, false, false, false], [false, true, false, false], [false, true, true, false],
+      [false, false, false, false]] :=
+  (C15_source_capstone_print_ascii [[true, false], [true, true]] 2 1 rfl (by decide) true false).trans (by decide)
+/-- the same two statements evaluated directly by the kernel on the translated definitions -/
+example : Spec.readTty (print_tty_text (fun r c => (([[true, false], [true, true]] : List (List Bool)).getD r []).getD c false) 2) =
+    some [[false, false, false, false], [false, true, false, false], [false, true, true, false],
+      [false, false, false, false]] := by decide +kernel
+example : (Spec.readHalfBlocks true
+      (print_ascii_text
+        (fun x y => if get_module_phantom (2:Nat) (1:Nat) (print_ascii_invert true false) x y then get_module_phantom_value
+          else if get_module_outside (2:Nat) x y then get_module_outside_value
+          else if (([[true, false], [true, true]] : List (List Bool)).getD x.toNat []).getD y.toNat false then 1 else 0)
+        (print_ascii_codes (print_ascii_invert true false)) (2:Nat) (1:Nat) true (print_ascii_invert true false))).map (·.take (2 + 2 * 1))
+      = some [[false, false, false, false], [false, true, false, false], [false, true, true, false],
+      [false, false, false, false]] := by decide +kernel
+
+end Capstone
+
 /-- the Python functions this property's model mirrors have, in /repo's current working tree, exactly the normalised
     ASTs the model was written and validated against (fingerprints regenerated by T1 on every run) -/
 theorem C15_source_fingerprints : QR.Gen.fp_C15 = QR.Pinned.fp_C15 := by decide
